@@ -35,7 +35,7 @@ def compiled_regexes(A: Analysis, m: Module) -> Dict[str, Tuple[str, ast.AST]]:
 def uses(A: Analysis, m: Module, name: str) -> List[Tuple[str, str, ast.Call]]:
     """(function name, method, call) for every `name.<method>(...)` in the module."""
     out = []
-    for fi in A.prog.functions.values():
+    for fi in A.prog.scan_functions:
         if fi.module is not m:
             continue
         for c in walk_local(fi.node):
